@@ -20,9 +20,45 @@ for d in sorted(glob.glob(os.path.join(here, 'seeded', ID + '-*'))):
             sites.setdefault(cur, set()).add(fn[-1] if fn else '?')
 sitetxt = '; '.join('%s: %s' % (f, ', '.join(sorted(s))) for f, s in sorted(sites.items()))
 WT, SD = '/tmp/wt%s-%s' % (RND, ID), '/tmp/seed%s-%s' % (RND, ID)
+# from round 7 on: functions of the property's anchor files that no earlier change has touched
+UNTOUCHED = ""
+if int(RND) >= 7:
+    repo = os.environ.get("VERIF_REPO", "/repo")
+    alls = {}
+    for d in sorted(glob.glob(os.path.join(here, 'seeded', 'C*-*'))):
+        f = os.path.join(d, 'patch-ported.diff')
+        if not os.path.exists(f):
+            f = os.path.join(d, 'patch.diff')
+        cur = None
+        for l in open(f, errors='replace'):
+            if l.startswith('+++ b/'):
+                cur = l[6:].strip()
+            m = re.match(r'^@@[^@]*@@ ?(.*)$', l)
+            if m and cur:
+                fn = re.sub(r'\(.*', '', m.group(1)).split()
+                if fn:
+                    alls.setdefault(cur, set()).add(fn[-1])
+    files = []
+    for pat in prop.get('anchors', {}).get('files', []):
+        files += [os.path.relpath(x, repo) for x in glob.glob(os.path.join(repo, pat))]
+    parts = []
+    for f in sorted(set(files)):
+        if not f.endswith(('.c', '.h')) or 'parson' in f:
+            continue
+        names = set(re.findall(r'^([a-z_][a-z0-9_]*)\s*\(', open(os.path.join(repo, f), errors='replace').read(), re.M))
+        names -= {'if', 'for', 'while', 'switch', 'return', 'sizeof', 'main', 'usage'}
+        u = sorted(n for n in names - alls.get(f, set()) if not re.match(r'.*_(get|name)(_|$)', n))
+        if u:
+            parts.append('%s: %s' % (f, ', '.join(u)))
+    if parts:
+        UNTOUCHED = ("At least ONE of your two patches must make its change inside one of the following functions, which no earlier change has touched "
+                     "(the other patch is free; callers and callees of these functions count too if the listed one is where the behaviour is decided): "
+                     + '; '.join(parts) + ".\n")
 HINT5 = "Triggers that are especially welcome: three or more threads / processes / looms; something that only shows after many repetitions (a counter, a dynamic array or hash table growing, a wrap-around); the cooperation of two sites; rarely combined options (ovniemu -a -b -c -l -d, OVNI_TMPDIR, ovnisort -n, clock offset tables); state left behind by an earlier run or emulation; integer edges; the interplay of two event models; the less used tools."
 HINT6 = "Assume that anything which shows within a handful of events on two or three threads of one process, with default options, a healthy file system and small values, is already caught. Look elsewhere: histories of eight or more events in which an intermediate state matters (something is set up early and misused late); events of two or three different models interleaved in one thread or trace (task models together with MPI, marks, kernel context switches, flushes); what the environment may answer (short or interrupted reads and writes, EEXIST, ENOENT, directory order, a file that already exists or is a symbolic link, a full disk at one particular call); behaviour after the first error was reported (is the exit status still non-zero, are later streams still checked); finish and clean-up paths; the outputs other than thread.prv (cpu.prv, the .pcf and .row files, the breakdown traces); numeric edges (values of 2^31 and beyond, zero, negative, very long names and labels); many participants (dozens of threads, CPUs, looms, task types); and changes split over two sites of which each alone is harmless."
 HINT = HINT6 if int(RND) >= 6 else HINT5
+if int(RND) >= 7:
+    HINT = HINT5 + " " + HINT6
 print(f"""You are helping to test how well a verification effort for the C project bsc-pm/ovni detects regressions. ovni is a tracing runtime (libovni, src/rt/ovni.c) that writes per-thread binary event streams, plus an emulator (ovniemu) and tools (ovnidump, ovnitop, ovnisort, ovnievents, ovniver; src/emu) that replay them into Paraver traces. Documentation is under doc/.
 
 You have your own scratch git worktree of the repository at {WT}. Work only there and under {SD} (create it). Never read or write /repo or /verif. There is no network.
@@ -41,7 +77,7 @@ Produce TWO independent changes (patch1, patch2) to the sources under src/ or in
  (c) looking like a realistic slip a developer could make (a refactoring that loses a case, an off-by-one, the wrong variable, a missing reset, two operations in the wrong order, a cached value that goes stale, a narrowed integer type, a condition that is right for the common configuration only) - not sabotage with magic constants.
 Each change must need something SPECIFIC to manifest - a particular interleaving, a crash or fault at a particular point, a multi-step sequence of operations, an unusual input or configuration, or two cooperating code sites that each look fine alone - and must NOT be exposed at once by ordinary use. {HINT}
 Earlier rounds already used changes in these places - choose different mechanisms and, where you can, different functions: {sitetxt}.
-The two patches must be independent of each other (each applies alone to the clean tree) and should use different mechanisms.
+{UNTOUCHED}The two patches must be independent of each other (each applies alone to the clean tree) and should use different mechanisms.
 
 DELIVERABLES in {SD}/
  patch1.diff, patch2.diff   - `git diff` taken at the worktree root (must apply with `git apply` to the clean tree)
